@@ -159,9 +159,14 @@ theorem recvRecvHeaders_ev (s : Streams) (id : Nat) (h : HeadersIn) : EvB true s
   · exact .refl _
   · next st' isInitial heq =>
     dsimp only
-    generalize hS2 : (if (isInitial && !(Streams.stream _ id).isCounted) = true then _ else _) = S2
     have eM : EvB true s (s.modStream id fun st => { st with state := st' }) :=
       modStream_ev' _ _ _ (setState_same _ _ (recvOpen_early heq))
+    -- a promised stream whose response arrives when the limit is reached is refused (uncounted)
+    by_cases hfull : (isInitial && !((s.modStream id fun st => { st with state := st' }).stream id).isCounted &&
+        !(s.modStream id fun st => { st with state := st' }).counts.canIncNumRecvStreams) = true
+    · rw [if_pos hfull]; exact eM
+    rw [if_neg hfull]
+    generalize hS2 : (if (isInitial && !(Streams.stream _ id).isCounted) = true then _ else _) = S2
     have e2 : EvB true s S2 := by
       rw [← hS2]
       split
